@@ -630,4 +630,8 @@ var _ = registerReplay("C10", "ops", checkC10)
 func TestC10(t *testing.T) {
 	runKnownExamples(t, "C10")
 	RunProp(t, "C10", "ops", pick(1500, 15000), genC10, checkC10)
+	if t.Failed() {
+		return
+	}
+	runC10Fault(t)
 }
